@@ -284,7 +284,7 @@ class Host(HeaderElement):
 	is_request_header = True
 
 	priority = b'\x03'
-	RE_HOSTNAME = re.compile(r'^([^\x00-\x1F\x7F()^\'"<>@,;:/\[\]={} \t\\\\"]+)$')
+	RE_HOSTNAME = re.compile(r'^([^\x00-\x1F\x7F()^\'"<>@,;:/?#\[\]={} \t\\\\"]+)$')
 	HOSTPORT = re.compile(r'^(.*?)(?::(\d+))?$')
 
 	@property
